@@ -144,6 +144,10 @@ def run_shard(shard, ctx, tier):
             for ver in (0, 1):
                 guarded_check(mod, {'pid': 0, 'regions': [{'type': 0, 'rpoly': 0, 'rtext': 0, 'lines': [ln]}], 'ro': None,
                                     'ver': ver, 'via': 'string'}, ctx)
+            if t == 0 and c == 0 and ix == 0:
+                for cont in (1, 2, 3):       # the same page with its point lists held as python lists / int32 / float32 arrays
+                    guarded_check(mod, {'pid': 0, 'regions': [{'type': 0, 'rpoly': shard['poly'], 'rtext': 0, 'lines': [ln]}], 'ro': None,
+                                        'ver': h % 2, 'via': 'string', 'cont': cont}, ctx)
 
 
 # ------------------------------------------------------------------ model <-> real objects
@@ -154,15 +158,27 @@ def heights_value(i):
     return None if h is None else list(h)
 
 
+def container(points, kind):
+    """the point list as callers hold it: float array (0), python lists (1), integer array of the rounded points (2), float32 array (3)"""
+    if kind == 1:
+        return [list(map(float, p)) for p in points]
+    if kind == 2:
+        return np.round(np.asarray(points, dtype=float)).astype(np.int32)
+    if kind == 3:
+        return np.asarray(points, dtype=np.float32)
+    return np.asarray(points, dtype=float)
+
+
 def build(case):
     from pero_ocr.core.layout import PageLayout, RegionLayout, TextLine
     page = PageLayout(id=PIDS[case['pid']], page_size=(100, 200))
+    ck = case.get('cont', 0)
     for ri, r in enumerate(case['regions']):
-        reg = RegionLayout(f'r{ri + 1}', np.asarray(POLYGONS[r['rpoly']], dtype=float), region_type=RTYPES[r['type']])
+        reg = RegionLayout(f'r{ri + 1}', container(POLYGONS[r['rpoly']], ck), region_type=RTYPES[r['type']])
         reg.transcription = RTEXTS[r['rtext']]
         for li, l in enumerate(r['lines']):
-            reg.lines.append(TextLine(id=f'r{ri + 1}-l{li + 1}', baseline=np.asarray(BASELINES[l['bl']], dtype=float),
-                                      polygon=np.asarray(POLYGONS[l['poly']], dtype=float), heights=heights_value(l['h']),
+            reg.lines.append(TextLine(id=f'r{ri + 1}-l{li + 1}', baseline=container(BASELINES[l['bl']], ck),
+                                      polygon=container(POLYGONS[l['poly']], ck), heights=heights_value(l['h']),
                                       transcription=TEXTS[l['t']], transcription_confidence=CONFS[l['c']], index=INDEXES[l['idx']]))
         page.regions.append(reg)
     if case['ro'] is not None:
@@ -251,7 +267,9 @@ def check_case(case, ctx):
     ver = [PAGEVersion.PAGE_2019_07_15, PAGEVersion.PAGE_2013_07_15][case['ver']]
     page = build(case)
     want = expected(case)
-    ctx.state((case['pid'], str(case['regions']), str(case['ro'])))
+    ctx.state((case['pid'], str(case['regions']), str(case['ro']), case.get('cont', 0)))
+    if case.get('cont'):
+        ctx.tag('other-point-containers')
     K = f'{ID}'
     desc = f'page {case}'
     s1 = page.to_pagexml_string(version=ver)
@@ -363,5 +381,5 @@ def describe(tier):
                       'confidences': [str(c) for c in CONFS], 'indexes': [str(i) for i in INDEXES], 'region_types': [str(t) for t in RTYPES],
                       'region_texts': [repr(t) for t in RTEXTS], 'page_ids': PIDS},
         'assumptions': ['a reading order of None and an empty one are equivalent', 'conf is only stored together with a transcription'],
-        'min_nontrivial': 100, 'required_tags': ['reading-order-permutes', 'two-or-more-non-default-fields'],
+        'min_nontrivial': 100, 'required_tags': ['other-point-containers', 'reading-order-permutes', 'two-or-more-non-default-fields'],
     }
